@@ -301,7 +301,7 @@ pub fn run(tier: Tier, seed: u64) -> i32 {
             "known finding K-3: panics on sampler Err, goal bias outside [0,1] / NaN, empty start list are keyed on (planner, trigger); any other panic is reported",
             "release build with overflow checks enabled; the thorough tier adds a Miri run of a small workload (./checks/C08.sh)",
         ],
-        json!({"random_histories": n_hist, "exhaustive_worlds": n_worlds_exh, "fault_worlds": n_fault_worlds, "w1_runs": n_w1}),
+        json!({"miri": ctx.fold_miri_summary(), "random_histories": n_hist, "exhaustive_worlds": n_worlds_exh, "fault_worlds": n_fault_worlds, "w1_runs": n_w1}),
     )
 }
 
